@@ -6,7 +6,7 @@ from .facts import walk, kids, strip_all, call_args, call_object, is_call
 from .structure import Struct, always_exits
 from .render import Renderer
 from .terms import Evaluator, Frame, show, num, subterms, MatVal
-from .poly import to_rat, Rat, Poly, NotPolynomial
+from .poly import to_rat, Rat, Poly, NotPolynomial, PI
 from .potential import C, A, hessian, gradient, SQRT2, INV_SQRT2
 from .rules_c20 import _reduce_roots
 from .rules_c04 import fld, el, K, as_entries, equal_rat, _check_tachyons
@@ -86,6 +86,56 @@ def _reduce_trig(p, s_atom, c_atom):
         if not hit:
             break
     return p
+
+
+def _norm_getters(t):
+    """model getters are compared by short name (get_beta(this) with or without class qualification)"""
+    if not isinstance(t, tuple) or not t:
+        return t
+    if t[0] == "call":
+        return ("call", str(t[1]).split("::")[-1], tuple(_norm_getters(a) for a in t[2]))
+    if t[0] in ("num", "sym"):
+        return t
+    return (t[0],) + tuple(_norm_getters(x) if isinstance(x, tuple) else x for x in t[1:])
+
+
+def expand_trig(t):
+    """sin/cos of +-sums of atan(x), asin(y) -> algebraic form with principal square roots:
+       sin(atan x) = x/sqrt(1+x^2), cos(atan x) = 1/sqrt(1+x^2), sin(asin y) = y, cos(asin y) = sqrt(1-y^2)"""
+    if not isinstance(t, tuple) or not t:
+        return t
+    if t[0] == "call" and t[1] in ("sin", "cos") and len(t[2]) == 1:
+        sc = _sincos(t[2][0])
+        if sc is not None:
+            return sc[0] if t[1] == "sin" else sc[1]
+    if t[0] in ("num", "sym"):
+        return t
+    if t[0] == "call":
+        return ("call", t[1], tuple(expand_trig(a) for a in t[2]))
+    return (t[0],) + tuple(expand_trig(x) if isinstance(x, tuple) else x for x in t[1:])
+
+
+def _sincos(a):
+    """(sin a, cos a) as terms for a built from atan(.), asin(.) by + - neg; None otherwise"""
+    one = num(1)
+    if a[0] == "call" and a[1] == "atan" and len(a[2]) == 1:
+        x = expand_trig(a[2][0])
+        r = ("call", "sqrt", (("+", one, ("*", x, x)),))
+        return ("/", x, r), ("/", one, r)
+    if a[0] == "call" and a[1] == "asin" and len(a[2]) == 1:
+        y = expand_trig(a[2][0])
+        return y, ("call", "sqrt", (("-", one, ("*", y, y)),))
+    if a[0] == "neg":
+        sc = _sincos(a[1])
+        return None if sc is None else (("neg", sc[0]), sc[1])
+    if a[0] in ("+", "-"):
+        p, q = _sincos(a[1]), _sincos(a[2])
+        if p is None or q is None:
+            return None
+        if a[0] == "-":
+            q = (("neg", q[0]), q[1])
+        return (("+", ("*", p[0], q[1]), ("*", p[1], q[0])), ("-", ("*", p[1], q[1]), ("*", p[0], q[0])))
+    return None
 
 
 def run(F, R, tier):
@@ -228,22 +278,103 @@ def run(F, R, tier):
     R.rule("R7", "sin/cos(beta - alpha) are computed from the one normalised alpha_h (beta - alpha_h in [-pi/2, pi/2], "
                  "hence cos >= 0); alpha_h is shifted by -+pi exactly when beta - alpha_h leaves that interval", 3)
     En = Evaluator(F, inline=lambda n, g_: not re.search(r"::(get_alpha_h|get_beta)$", n))
+    bma_t = ("-", ("call", CLS + "::get_beta", (TH,)), ("call", CLS + "::get_alpha_h", (TH,)))
     for nm, fn_ in (("get_sin_beta_minus_alpha", "sin"), ("get_cos_beta_minus_alpha", "cos")):
         f = F.fn(CLS + "::" + nm)
         v, fr_ = En.function_value(f)
-        want = "%s((get_beta(this) - get_alpha_h(this)))" % fn_
-        R.check("R7", show(v) == want, "%s = %s" % (nm, show(v)[:80]), F.loc(f),
+        ok = False
+        try:
+            ok = v[0] == "call" and v[1] == fn_ and len(v[2]) == 1 and \
+                to_rat(("-", _norm_getters(v[2][0]), _norm_getters(bma_t))).is_zero()
+        except NotPolynomial:
+            ok = False
+        R.check("R7", ok, "%s = %s" % (nm, show(v)[:80]), F.loc(f),
                 "reported %s(beta-alpha) bypasses the normalised alpha_h: %s" % (fn_, show(v)[:100]), key="R7|" + nm)
+    # get_alpha_h: alpha0 = asin(ZH(1,1)), shifted by -pi / +pi exactly when beta - alpha0 is below -pi/2 / above +pi/2
     f = F.fn(CLS + "::get_alpha_h")
-    Rr = Renderer(f, resolve_locals=False)
-    pairs = sorted((Rr.r(n["cond"]), Rr.r(n["then"])) for n in f["body"].get("c", []) if n.get("k") == "IfStmt")
-    low = [p_ for p_ in pairs if re.match(r"^\(bma < \(\(-\(pi\) / 2\) - \w+\)\)$", p_[0]) and "alpha_h -= pi" in p_[1]]
-    high = [p_ for p_ in pairs if re.match(r"^\(\(\(pi / 2\) \+ \w+\) < bma\)$", p_[0]) and "alpha_h += pi" in p_[1]]
-    bma_def = [Renderer(f, resolve_locals=False).r(d["init"]) for n in walk(f["body"]) if n.get("k") == "DeclStmt"
-               for d in n["decls"] if d.get("name") == "bma" and d.get("init") is not None]
-    ok = len(pairs) == 2 and len(low) == 1 and len(high) == 1 and bma_def == ["(get_beta() - alpha_h)"]
-    R.check("R7", ok, "get_alpha_h normalisation: %s" % "; ".join("%s -> %s" % p_ for p_ in pairs)[:160], F.loc(f),
-            "the normalisation of alpha_h to beta - alpha_h in [-pi/2, pi/2] changed", key="R7|alpha_h")
+    from .rules_c11 import _cases
+    v, fr_ = En.function_value(f)
+    ok, why = True, ""
+    try:
+        lv = _cases(v, [])
+        a0 = [val for fa, val in lv if not [c for c, t in fa if t]]
+        if len(a0) != 1:
+            ok, why = False, "no unshifted branch"
+        else:
+            a0 = a0[0]
+            ok = a0[0] == "call" and a0[1] == "asin" and "ZH" in show(a0) and "(1,1)" in show(a0).replace(" ", "")
+            why = "" if ok else "alpha_h is not asin(ZH(1,1)): %s" % show(a0)[:60]
+            bma = to_rat(_norm_getters(("-", ("call", CLS + "::get_beta", (TH,)), a0)))
+            half_pi = Rat(Poly.atom(PI)) * Rat(Poly.const(Fraction(1, 2)))
+            seen = set()
+            for fa, val in lv:
+                dv = to_rat(("-", val, a0))
+                kk = None
+                for cand in (-2, -1, 0, 1, 2):
+                    if (dv - Rat(Poly.atom(PI)) * Rat(Poly.const(cand))).is_zero():
+                        kk = Fraction(cand)
+                if kk is None:
+                    ok, why = False, "a branch returns %s" % show(val)[:60]
+                    break
+                true = [c for c, t in fa if t]
+                sides = set()
+                for c in true:
+                    if c[0] != "cmp" or c[1] not in ("<", "<="):
+                        continue
+                    d_ = to_rat(("-", _norm_getters(c[2]), _norm_getters(c[3])))        # l - r < 0
+                    lo_ = d_ - (bma + half_pi)            # bma + pi/2 + e < 0
+                    hi_ = d_ - (half_pi - bma)            # pi/2 + e - bma < 0
+                    for tag, r_ in (("low", lo_), ("high", hi_)):
+                        eps_atoms = {a: Poly.const(Fraction(1, 2 ** 52)) for a in r_.n.atoms()
+                                     if isinstance(a, tuple) and a[0] == "call" and str(a[1]).split("::")[-1] == "epsilon"}
+                        if eps_atoms:
+                            r_ = Rat(r_.n.subs(eps_atoms), r_.d)
+                        if r_.d.is_const() and (r_.n.is_const() or not r_.n.t):
+                            e_ = r_.n.const_value() / r_.d.const_value() if r_.n.t else Fraction(0)
+                            if 0 <= e_ < Fraction(1, 10 ** 6):
+                                sides.add(tag)
+                if sides == {"low", "high"}:
+                    continue             # infeasible: beta - alpha_h cannot be below -pi/2 and above pi/2
+                want = {Fraction(-1): {"low"}, Fraction(1): {"high"}, Fraction(0): set()}.get(kk)
+                if want is None or sides != want:
+                    ok, why = False, "shift %s*pi under %s" % (kk, [show(c)[:40] for c in true])
+                    break
+                seen.add(kk)
+            if ok and seen != {Fraction(-1), Fraction(0), Fraction(1)}:
+                ok, why = False, "shifts found: %s" % sorted(seen)
+    except NotPolynomial as ex:
+        ok, why = False, str(ex)[:100]
+    R.check("R7", ok, "get_alpha_h = asin(ZH(1,1)) -+ pi exactly when beta - alpha_h is below -pi/2 / above pi/2", F.loc(f),
+            "the normalisation of alpha_h to beta - alpha_h in [-pi/2, pi/2] changed: %s" % why, key="R7|alpha_h")
+
+    # ---- R8 CKM enters the up-type Yukawa matrices as V^dagger ------------------------------------------
+    R.rule("R8", "init_yukawas uses the CKM matrix only through its adjoint (M_u = V_CKM^dagger diag(m_u), so that the quark "
+                 "mixing matrices reproduce the input CKM matrix incl. its CP phase)", 1)
+    g = F.fn("gm2calc::THDM::init_yukawas")
+    Sg = Struct(g)
+    uses = [n for n in walk(g["body"]) if is_call(n) and str(n.get("fn", "")).endswith("::get_ckm")]
+    bad = []
+    for n in uses:
+        p_ = Sg.parent(n)
+        while p_ is not None and p_.get("k") in ("ImplicitCastExpr", "ParenExpr", "MaterializeTemporaryExpr", "MemberExpr",
+                                                  "CXXBindTemporaryExpr"):
+            p_ = Sg.parent(p_)
+        chain = []
+        while p_ is not None and is_call(p_) and str(p_.get("fn", "")).split("::")[-1] in ("adjoint", "transpose", "conjugate", "eval"):
+            chain.append(str(p_.get("fn", "")).split("::")[-1])
+            p_ = Sg.parent(p_)
+            while p_ is not None and p_.get("k") in ("ImplicitCastExpr", "ParenExpr", "MaterializeTemporaryExpr", "MemberExpr",
+                                                      "CXXBindTemporaryExpr"):
+                p_ = Sg.parent(p_)
+        ops = sorted(c for c in chain if c != "eval")
+        if ops not in (["adjoint"], ["conjugate", "transpose"]):
+            bad.append("get_ckm() used through %s at line %s" % ("/".join(chain) or (p_ or {}).get("k"), n.get("l")))
+    if not uses:
+        R.soft_broken("R8: init_yukawas does not call get_ckm() (anchor moved?)")
+    else:
+        R.check("R8", not bad, "init_yukawas: %d use(s) of get_ckm(), all as get_ckm().adjoint()" % len(uses), F.loc(g),
+                "; ".join(bad) + ": for a complex CKM matrix the up-type mass matrix is no longer V^dagger diag(m_u)",
+                key="R8|ckm")
 
     # ---- R6 closed-form inversion -------------------------------------------------------------------
     R.rule("R6", "mass basis: with the lambda_1..5 computed by the constructor and the EWSB solution, the specification's "
@@ -257,7 +388,7 @@ def run(F, R, tier):
             v_ = fr.heap.get(name)
             if v_ is None:
                 raise AnalysisBroken("R6: %s is not assigned by set_basis(Mass_basis)" % name)
-            return to_rat(v_)
+            return to_rat(expand_trig(v_))
         lam = {("field", TH, "lambda%d" % i): H("lambda%d" % i) for i in range(1, 8)}
         lam[("field", TH, "m122")] = H("m122")
         lam[("field", TH, "v1")] = H("v1")
@@ -270,13 +401,15 @@ def run(F, R, tier):
         full[a2] = e2
         b = ("sym", "basis")
         mh, mH, mA, mHp = (Rat(Poly.atom(("field", b, x))) for x in ("mh", "mH", "mA", "mHp"))
-        # alpha, beta atoms as the constructor defines them
-        alpha_terms = [x for x in subterms(fr.heap["lambda1"]) if x and x[0] == "call" and x[1] in ("sin", "cos")]
-        sa_t = [x for x in alpha_terms if x[1] == "sin"]
-        ca_t = [x for x in alpha_terms if x[1] == "cos"]
-        if not sa_t or not ca_t or sa_t[0][2] != ca_t[0][2]:
-            raise AnalysisBroken("R6: sin(alpha)/cos(alpha) not identified in lambda1")
-        sa, ca = Rat(Poly.atom(sa_t[0])), Rat(Poly.atom(ca_t[0]))
+        # alpha = beta - (beta - alpha) with beta = atan(tan beta), beta - alpha = asin(sin(beta - alpha)) (so cos(beta-alpha) >= 0):
+        #   sin(alpha) = (tb R2 - sba)/R1,  cos(alpha) = (R2 + tb sba)/R1,  R1 = sqrt(1 + tb^2),  R2 = sqrt(1 - sba^2)
+        # every sin/cos of sums of atan/asin in the constructor's values has been expanded into these square roots
+        # (expand_trig), so a trig-free spelling of the constructor is compared on equal terms
+        tbt, sbat = ("field", b, "tan_beta"), ("field", b, "sin_beta_minus_alpha")
+        R1t = ("call", "sqrt", (("+", num(1), ("*", tbt, tbt)),))
+        R2t = ("call", "sqrt", (("-", num(1), ("*", sbat, sbat)),))
+        sa = to_rat(("/", ("-", ("*", tbt, R2t), sbat), R1t))
+        ca = to_rat(("/", ("+", R2t, ("*", tbt, sbat)), R1t))
         tb = Rat(Poly.atom(("field", b, "tan_beta")))
         one = Rat(Poly.const(1))
         # cos^2 beta = 1/(1+tb^2), sin beta cos beta = tb/(1+tb^2), sin^2 beta = tb^2/(1+tb^2)
@@ -294,22 +427,13 @@ def run(F, R, tier):
                     got_ = subs_rat(sp[key][i][k], full)
                     diff = got_ - tgt[i][k]
                     n_ = diff.n
-                    for _ in range(6):
-                        n_ = _reduce_roots(n_)
-                    n_ = _reduce_trig(n_, sa_t[0], ca_t[0])
-                    for _ in range(3):
+                    for _ in range(8):
                         n_ = _reduce_roots(n_)
                     label = {"hh": "CP-even", "Ah0": "CP-odd", "Hm0": "charged"}[key]
                     R.check("R6", n_.is_zero(), "%s mass matrix (%d,%d) == spectral form of the inputs" % (label, i, k), F.loc(f),
                             "the lambdas computed from (mh, mH, mA, mH+, sin(beta-alpha), tan beta, lambda6, lambda7, m12^2) do "
                             "not reproduce the input spectrum: residual has %d terms (e.g. %s)" % (len(n_.t), repr(n_)[:160]),
                             key="R6|%s|%d%d" % (key, i, k))
-        # alpha is beta - asin(sin(beta - alpha))
-        at = show(sa_t[0][2][0])
-        want_alpha = ("-", ("call", "atan", (("field", b, "tan_beta"),)), ("call", "asin", (("field", b, "sin_beta_minus_alpha"),)))
-        R.check("R6", to_rat(("-", sa_t[0][2][0], want_alpha)).is_zero(),
-                "alpha = atan(tan beta) - asin(sin(beta-alpha)): %s" % at, F.loc(f),
-                "alpha is %s: cos(beta-alpha) >= 0 convention / definition changed" % at, key="R6|alpha")
     except NotPolynomial as ex:
         R.soft_broken("R6: %s" % ex)
     except AnalysisBroken as ex:
